@@ -65,20 +65,24 @@ def main(tier, seed):
             ns['entries'] += [dict(e_) for e_ in girgen.ALIAS_FIXTURE]
             if g.foreign:
                 # every type of the included namespaces in parameter, return and element position, whatever the dice said
-                xt = [('X', 'Item'), ('Y', 'Item'), ('X', 'Other'), ('X', 'Handle'), ('Y', 'Handle')]
+                xt = ([('XB', 'Item'), ('XB', 'Item')] if i % 4 == 3 else []) + [('X', 'Item'), ('Y', 'Item'), ('X', 'Other'), ('X', 'Handle'), ('Y', 'Handle')] + ([('XB', 'Item')] if i % 4 == 1 else [])
 
                 def par(j, t):
                     return dict(name='p%d' % j, dir='in', transfer='none', nullable=False, optional=False, caller_allocates=False,
                                 skip=False, scope=None, closure=None, destroy=None, type=t, attrs={})
+                xfuncs = []
                 for j, t in enumerate(xt):
-                    ns['entries'].append(dict(kind='function', name='xuse%d' % j, cid='t_xuse%d' % j, deprecated=False, attrs={},
+                    xfuncs.append(dict(kind='function', name='xuse%d' % j, cid='t_xuse%d' % j, deprecated=False, attrs={},
                                               params=[par(0, ('xiface',) + t), par(1, ('glist', ('xiface',) + t)),
                                                       par(2, ('array', ('xiface',) + t, dict(zero=True)))],
                                               ret=dict(type=('xiface',) + xt[(j + 1) % len(xt)], transfer='none', nullable=False, skip=False, attrs={}),
                                               throws=False))
+                # in every fourth document these functions come first, so that XB.Item is the first type of an included
+                # namespace the compiler meets (X.Item, whose namespace name XB's begins with, only after it)
+                ns['entries'] = (xfuncs + ns['entries']) if i % 4 == 3 else (ns['entries'] + xfuncs)
             gir = os.path.join(tmp, 'T-1.0.gir')
             tl = os.path.join(tmp, 'T-1.0.typelib')
-            incl = ([('X', '1.0'), ('TX', '1.0'), ('Y', '1.0')] if i % 4 == 1 else [('Y', '1.0'), ('X', '1.0'), ('TX', '1.0')]) if g.foreign else []
+            incl = ([('X', '1.0'), ('TX', '1.0'), ('Y', '1.0'), ('XB', '1.0')] if i % 4 == 1 else [('XB', '1.0'), ('Y', '1.0'), ('X', '1.0'), ('TX', '1.0')]) if g.foreign else []
             xml = girgen.to_gir(ns, includes=incl)
             open(gir, 'w').write(xml)
             rc, o = run([os.path.join(CBUILD, 'g-ir-compiler'), '--includedir', tmp, gir, '-o', tl], timeout=120)
